@@ -35,10 +35,12 @@ enum {
 	K_COD,		/* /1d */
 	K_COMO,		/* /Nmo, N | 12 */
 	K_COY,		/* /Ny */
+	K_BD,		/* business day of the month Nb (on bizda values) */
+	K_COBD,		/* /1b */
 	NKIND
 };
 static const char *const kind_name[NKIND] = {"weekday", "month-name", "month-number", "day-of-month", "hour", "minute", "second",
-					     "/Nh", "/Nm", "/Ns", "/1d", "/Nmo", "/Ny"};
+					     "/Nh", "/Nm", "/Ns", "/1d", "/Nmo", "/Ny", "business-day", "/1b"};
 
 struct spec_s {
 	int kind, n, down;
@@ -72,6 +74,8 @@ spec_make(struct spec_s *s, int kind, int n, int down)
 	case K_COD: snprintf(s->text, sizeof(s->text), "/%s%dd", sg, n); break;
 	case K_COMO: snprintf(s->text, sizeof(s->text), "/%s%dmo", sg, n); break;
 	case K_COY: snprintf(s->text, sizeof(s->text), "/%s%dy", sg, n); break;
+	case K_BD: snprintf(s->text, sizeof(s->text), "%s%db", sg, n); break;
+	case K_COBD: snprintf(s->text, sizeof(s->text), "/%s%db", sg, n); break;
 	}
 	/* exactly what main() does with one RNDSPEC */
 	if (dt_io_strpdtrnd(&st, s->text) >= 0 && st.ndurs == 1U && !__strpdtdur_more_p(&st)) {
@@ -86,8 +90,10 @@ spec_make(struct spec_s *s, int kind, int n, int down)
 
 /* instants: date-only: rd; time-only: second of day; date-time: rd*86400+sec */
 /* FAM_SX: a date-time given and printed as Unix epoch seconds (-i %s -f %s), held as DT_SEXY */
-enum { FAM_D, FAM_T, FAM_DT, FAM_SX };
-static const char *const fam_name[] = {"date", "time", "datetime", "epoch"};
+/* FAM_B: a date given and printed as business day of the month (2012-03-05b), held as DT_BIZDA;
+ * encoded as the rd of that day like FAM_D */
+enum { FAM_D, FAM_T, FAM_DT, FAM_SX, FAM_B };
+static const char *const fam_name[] = {"date", "time", "datetime", "epoch", "bizda"};
 
 static int
 rd_ok(int64_t rd)
@@ -119,6 +125,12 @@ walk_days(int rd, int kind, int n, int down, int next, int clamp)
 			break;
 		case K_DOM:
 			if (p->d == ((clamp && n > p->mlen) ? p->mlen : n)) {
+				return r;
+			}
+			break;
+		case K_BD:
+			/* n <= 20: every month has that many business days */
+			if (p->isbd && p->bd == n) {
 				return r;
 			}
 			break;
@@ -205,6 +217,8 @@ day_on_grid(const struct rc_day *p, int kind, int n)
 	switch (kind) {
 	case K_COD:
 		return 1;
+	case K_COBD:
+		return p->isbd;
 	case K_COMO:
 		/* n | 12: the grid is aligned to the year */
 		return p->d == 1 && (p->m - 1) % n == 0;
@@ -256,6 +270,23 @@ oracle(int fam, int64_t in, const struct spec_s *s, int next, int64_t *out, cons
 			return 1;
 		}
 		fam = FAM_DT;
+	}
+	if (fam == FAM_B) {
+		if (s->kind != K_BD) {
+			*skip = "target other than Nb on a business-day-of-month value";
+			return 1;
+		}
+		r = walk_days((int)in, K_BD, s->n, s->down, next, 0);
+		if (r == NONE) {
+			return 2;
+		}
+		*out = r;
+		return 0;
+	}
+	if (s->kind == K_BD) {
+		/* the tool says so itself: "rounding to n-th business day not supported for input value" */
+		*skip = "Nb on a value not held as business day of the month";
+		return 1;
 	}
 	rd = fam == FAM_D ? in : fam == FAM_DT ? in / 86400 : 0;
 	sec = fam == FAM_T ? (int)in : fam == FAM_DT ? (int)(in % 86400) : 0;
@@ -321,6 +352,7 @@ oracle(int fam, int64_t in, const struct spec_s *s, int next, int64_t *out, cons
 		return 0;
 	}
 	case K_COD:
+	case K_COBD:
 	case K_COMO:
 	case K_COY: {
 		const struct dgrid_s *g = dgrid(s->kind, s->n);
@@ -360,6 +392,13 @@ fmt_inst(char *buf, size_t bsz, int fam, int64_t v)
 		snprintf(buf, bsz, "%02d:%02d:%02d", (int)(v / 3600), (int)(v / 60 % 60), (int)(v % 60));
 	} else if (fam == FAM_SX) {
 		snprintf(buf, bsz, "%lld", (long long)(v - (int64_t)RC_RD_1970 * 86400));
+	} else if (fam == FAM_B) {
+		const struct rc_day *p = rc_get((int)v);
+		if (p == NULL) {
+			snprintf(buf, bsz, "(out of range)");
+		} else {
+			snprintf(buf, bsz, "%04d-%02d-%02db", p->y, p->m, p->bd);
+		}
 	} else {
 		const struct rc_day *p = rc_get((int)(fam == FAM_D ? v : v / 86400));
 		int s = fam == FAM_D ? 0 : (int)(v % 86400);
@@ -387,6 +426,24 @@ parse_out(const char *s, int fam, int64_t *out)
 		}
 		*out = (int64_t)e + (int64_t)RC_RD_1970 * 86400;
 		return (*out >= 0 && rd_ok(*out / 86400)) ? 0 : 2;
+	}
+	case FAM_B: {
+		int r0;
+		if (sscanf(s, "%d-%d-%db%n", &y, &m, &d, &n) != 3 || s[n]) {
+			return 1;
+		}
+		if (y < RC_MIN_YEAR || y > RC_MAX_YEAR || m < 1 || m > 12 || d < 1) {
+			return 2;
+		}
+		r0 = rc_rd(y, m, 1);
+		for (int k = 0; k < rc_mlen(y, m); k++) {
+			const struct rc_day *p = rc_get(r0 + k);
+			if (p->isbd && p->bd == d) {
+				*out = r0 + k;
+				return 0;
+			}
+		}
+		return 2;
 	}
 	case FAM_D:
 		if (sscanf(s, "%d-%d-%d%n", &y, &m, &d, &n) != 3 || s[n]) {
@@ -420,7 +477,7 @@ parse_out(const char *s, int fam, int64_t *out)
 	return 0;
 }
 
-static const char *const fam_fmt[] = {"%Y-%m-%d", "%H:%M:%S", "%Y-%m-%dT%H:%M:%S", "%s"};
+static const char *const fam_fmt[] = {"%Y-%m-%d", "%H:%M:%S", "%Y-%m-%dT%H:%M:%S", "%s", "%Y-%m-%db"};
 
 /* ------------------------------------------------------------- one rounding */
 static uint64_t *c_eval, *c_trans, *c_nontriv, *c_idem, *c_strict;
@@ -473,7 +530,7 @@ do_round(int fam, int64_t in, struct dt_dt_s v, const struct spec_s *s, int si, 
 		/* non-trivial: the input is not on the target already */
 		if (fam == FAM_T ? (s->down ? exp > in : exp < in)
 		    : fam == FAM_SX ? (exp / 86400 != in / 86400 || in < (int64_t)RC_RD_1970 * 86400)
-		    : fam == FAM_D ? rc_get((int)exp)->m != rc_get((int)in)->m
+		    : (fam == FAM_D || fam == FAM_B) ? rc_get((int)exp)->m != rc_get((int)in)->m
 		    : exp / 86400 != in / 86400) {
 			/* ... and the result wraps past midnight / lies in another month / on another day */
 			++*c_nontriv;
@@ -522,7 +579,7 @@ do_round(int fam, int64_t in, struct dt_dt_s v, const struct spec_s *s, int si, 
 	}
 	if (what) {
 		class_key(key, sizeof(key), fam, s, next, what);
-		ex_viol(key, (double)(fam == FAM_D ? in : fam == FAM_T ? in : in / 86400), cas, cmd,
+		ex_viol(key, (double)(fam == FAM_D || fam == FAM_B ? in : fam == FAM_T ? in : in / 86400), cas, cmd,
 			"%s: expected %s, got %s", cmd, etxt, got);
 		if (getenv("C16_TRACE")) {
 			fprintf(stderr, "FAIL %s | %s | exp %s got %s\n", cmd, what, etxt, got);
@@ -538,6 +595,8 @@ static struct spec_s specs[MAXSPEC];
 static int nspec;
 static int date_lo, date_hi;	/* spec index ranges: date targets */
 static int time_lo, time_hi;	/* time targets */
+static int bd_lo, bd_hi;	/* Nb targets (bizda values) */
+static int cobd_lo, cobd_hi;	/* /1b */
 
 static void
 add_spec(int kind, int n)
@@ -597,6 +656,15 @@ build_specs(void)
 		add_spec(K_COS, mdiv[i]);
 	}
 	time_hi = nspec;
+	/* appended later: indices are part of case strings */
+	bd_lo = nspec;
+	for (int b = 1; b <= 20; b++) {
+		add_spec(K_BD, b);
+	}
+	bd_hi = nspec;
+	cobd_lo = nspec;
+	add_spec(K_COBD, 1);
+	cobd_hi = nspec;
 }
 
 /* is the sign of a zero target expressible? "-0m" is a different command line from "0m"
@@ -616,12 +684,14 @@ do_input(int fam, int64_t in, int lo, int hi)
 	char txt[40];
 	struct dt_dt_s v = parse_in(fam, in, txt, sizeof(txt));
 	EX_CTR(c_states, "states");
-	++*c_states;
+	if (lo != cobd_lo) {
+		++*c_states;
+	}
 	if (dt_unk_p(v)) {
 		{
 			char key[64];
 			snprintf(key, sizeof(key), "%s: input not accepted by the parser", fam_name[fam]);
-			ex_viol(key, (double)(fam == FAM_D || fam == FAM_T ? in : in / 86400), "", fam == FAM_SX ? "dround -i %s 0 /1m" : NULL, "'%s' is not parsed", txt);
+			ex_viol(key, (double)(fam == FAM_D || fam == FAM_T || fam == FAM_B ? in : in / 86400), "", fam == FAM_SX ? "dround -i %s 0 /1m" : NULL, "'%s' is not parsed", txt);
 		}
 		return;
 	}
@@ -635,6 +705,172 @@ do_input(int fam, int64_t in, int lo, int hi)
 	}
 	if (ex_want_sample()) {
 		ex_sample("%s x %d targets (%s .. %s) x {up,down} x {-, -n}", txt, (hi - lo) / 2, specs[lo].text, specs[hi - 1].text);
+	}
+}
+
+
+/* ------------------------------------------- several RNDSPECs in one call */
+/* --help: "Multiple RNDSPECs are evaluated left to right" (dateround 2012-03-01 Sat Sep -> 2012-09-03,
+ * Sep Sat -> 2012-09-01).  main() collects the specs of all arguments into one list and hands it to
+ * dround(); the same is done here.  Oracle: the single-spec model applied left to right. */
+struct mdef_s {
+	int kind, n, down;
+	int dateok;	/* applies to a date without time */
+};
+/* indices are part of case strings: append only */
+static const struct mdef_s mdefs[] = {
+	{K_WD, 6, 0, 1}, {K_WD, 1, 1, 1}, {K_MON, 9, 0, 1}, {K_MON, 2, 1, 1}, {K_DOM, 31, 0, 1}, {K_DOM, 1, 1, 1},
+	{K_DOM, 15, 0, 1}, {K_MONUM, 3, 1, 1}, {K_MONUM, 6, 0, 1}, {K_COMO, 1, 0, 1}, {K_COMO, 1, 1, 1}, {K_COY, 1, 0, 1},
+	{K_COY, 1, 1, 1}, {K_COMO, 3, 1, 1}, {K_COD, 1, 0, 1}, {K_COBD, 1, 0, 1},
+	{K_H, 5, 0, 0}, {K_H, 23, 1, 0}, {K_H, 0, 0, 0}, {K_M, 30, 0, 0}, {K_M, 0, 1, 0}, {K_COM, 15, 0, 0},
+	{K_COM, 15, 1, 0}, {K_COH, 1, 0, 0}, {K_COH, 1, 1, 0}, {K_S, 59, 0, 0},
+};
+#define NMDEF	((int)(sizeof(mdefs) / sizeof(*mdefs)))
+static struct spec_s mspecs[NMDEF];
+
+static void
+build_mspecs(void)
+{
+	for (int i = 0; i < NMDEF; i++) {
+		spec_make(mspecs + i, mdefs[i].kind, mdefs[i].n, mdefs[i].down);
+	}
+}
+
+/* model: left to right; 0 ok, 1 skipped (why), 2 beyond the range */
+static int
+oracle_list(int fam, int64_t in, const int idx[], int n, int next, int64_t *out, const char **skip)
+{
+	int64_t cur = in;
+	for (int k = 0; k < n; k++) {
+		int64_t nx = NONE;
+		int rc = oracle(fam, cur, mspecs + idx[k], next, &nx, skip);
+		if (rc) {
+			return rc;
+		}
+		cur = nx;
+	}
+	*out = cur;
+	return 0;
+}
+
+static int
+do_multi(int fam, int64_t in, struct dt_dt_s v, const int idx[], int n, int next, int verbose)
+{
+	char itxt[40], etxt[40], got[64], key[256], cas[96], cmd[160], shape[96], stxt[64];
+	struct dt_dtdur_s durs[3];
+	struct dt_dt_s r;
+	const char *skip = NULL, *what = NULL;
+	int64_t exp = NONE, obs = NONE, exp2 = NONE;
+	size_t o = 0, p = 0;
+	int rc, prc;
+	EX_CTR(c_multi, "multi_spec_lists");
+	EX_CTR(c_multi2, "multi_spec_second_passes");
+
+	rc = oracle_list(fam, in, idx, n, next, &exp, &skip);
+	if (rc == 1) {
+		char sk[200];
+		snprintf(sk, sizeof(sk), "skipped:multi-spec: %s", skip);
+		++*ex_ctr(sk);
+		if (verbose) {
+			printf("  outside the property: %s\n", skip);
+		}
+		return 0;
+	} else if (rc == 2) {
+		EX_CTR(c_oor, "skipped:result beyond 1601..4095");
+		++*c_oor;
+		return 0;
+	}
+	for (int k = 0; k < n; k++) {
+		durs[k] = mspecs[idx[k]].dur;
+		o += (size_t)snprintf(shape + o, sizeof(shape) - o, "%s%s", k ? "," : "", kind_name[mspecs[idx[k]].kind]);
+		p += (size_t)snprintf(stxt + p, sizeof(stxt) - p, "%s%s", k ? " " : "", mspecs[idx[k]].text);
+	}
+	r = dround(v, durs, (size_t)n, next);
+	++*c_eval;
+	++*c_trans;
+	++*c_multi;
+	memset(got, 0, sizeof(got));
+	dt_strfdt(got, sizeof(got), fam_fmt[fam], r);
+	prc = parse_out(got, fam, &obs);
+	ex_outcome(ex_hash_mix(ex_hash(got, strlen(got)), (uint64_t)(idx[0] * 31 + idx[n - 1])));
+	fmt_inst(itxt, sizeof(itxt), fam, in);
+	fmt_inst(etxt, sizeof(etxt), fam, exp);
+	if (exp / (fam == FAM_D ? 1 : 86400) != in / (fam == FAM_D ? 1 : 86400)) {
+		++*c_nontriv;
+	}
+	if (prc == 1) {
+		what = "prints something that is not a date/time of the input's form";
+	} else if (prc == 2) {
+		what = "prints a date/time that does not exist";
+	} else if (obs != exp) {
+		what = "result differs from applying the RNDSPECs left to right";
+	} else if (!next && oracle_list(fam, exp, idx, n, 0, &exp2, &skip) == 0) {
+		/* the whole list once more, on the tool's own result */
+		char got2[64];
+		for (int k = 0; k < n; k++) {
+			durs[k] = mspecs[idx[k]].dur;
+		}
+		memset(got2, 0, sizeof(got2));
+		dt_strfdt(got2, sizeof(got2), fam_fmt[fam], dround(r, durs, (size_t)n, 0));
+		++*c_eval;
+		++*c_multi2;
+		if (parse_out(got2, fam, &obs) || obs != exp2) {
+			what = "second application of the list differs from the model's";
+			fmt_inst(etxt, sizeof(etxt), fam, exp2);
+			snprintf(got, sizeof(got), "%s", got2);
+		}
+	}
+	snprintf(cmd, sizeof(cmd), "dround %s%s -- %s", next ? "-n " : "", itxt, stxt);
+	if (verbose) {
+		printf("  %s: model %s, tool %s%s%s\n", cmd, etxt, got, what ? " -- " : " (agrees)", what ? what : "");
+	}
+	if (what) {
+		snprintf(key, sizeof(key), "multi-spec %s shape=%s next=%d: %s", fam_name[fam], shape, next, what);
+		snprintf(cas, sizeof(cas), "L %d %lld %d %d %d %d %d", fam, (long long)in, next, n, idx[0], n > 1 ? idx[1] : 0, n > 2 ? idx[2] : 0);
+		ex_viol(key, (double)(fam == FAM_D ? in : in / 86400), cas, cmd, "%s: expected %s, got %s", cmd, etxt, got);
+		if (getenv("C16_TRACE")) {
+			fprintf(stderr, "FAIL %s | %s | exp %s got %s\n", cmd, what, etxt, got);
+		}
+		return 1;
+	}
+	return 0;
+}
+
+/* all lists of exactly LEN specs on one input */
+static void
+do_multi_input(int fam, int64_t in, int len)
+{
+	char txt[40];
+	struct dt_dt_s v;
+	int idx[3] = {0, 0, 0};
+	int total = 1;
+
+	fmt_inst(txt, sizeof(txt), fam, in);
+	v = dt_strpdt(txt, NULL, NULL);
+	if (dt_unk_p(v)) {
+		return;
+	}
+	for (int k = 0; k < len; k++) {
+		total *= NMDEF;
+	}
+	for (int code = 0; code < total; code++) {
+		int x = code, ok = 1;
+		for (int k = len - 1; k >= 0; k--) {
+			idx[k] = x % NMDEF;
+			x /= NMDEF;
+			if (!mspecs[idx[k]].ok || (fam == FAM_D && !mdefs[idx[k]].dateok)) {
+				ok = 0;
+			}
+		}
+		if (!ok) {
+			continue;
+		}
+		for (int next = 0; next < 2; next++) {
+			do_multi(fam, in, v, idx, len, next, 0);
+		}
+	}
+	if (ex_want_sample()) {
+		ex_sample("%s x all lists of %d of %d RNDSPECs x {-, -n}", txt, len, NMDEF);
 	}
 }
 
@@ -834,6 +1070,8 @@ static const int bdays[][3] = {
 };
 #define NBDAYS	((int)(sizeof(bdays) / sizeof(*bdays)))
 static const int T7[] = {0, 1, 3599, 3600, 43199, 43200, 86399};
+/* times for the multi-spec lists */
+static const int TM7[] = {0, 1, 3599, 43200, 86340, 86370, 86399};
 
 int
 main(int argc, char *argv[])
@@ -855,6 +1093,7 @@ main(int argc, char *argv[])
 		madvise((void*)(a + 4096), e - (a + 4096), MADV_DONTFORK);
 	}
 	build_specs();
+	build_mspecs();
 
 	if (ex.cas) {
 		int fam, si, next;
@@ -868,6 +1107,18 @@ main(int argc, char *argv[])
 			before = ex.nviol;
 			do_validation(u, n);
 			return ex_replay_result(ex.nviol != before, "main() validation unit %d N=%d", u, n);
+		}
+		if (ex.cas[0] == 'L') {
+			int fam, next, n, idx[3];
+			long long in;
+			char txt[40];
+			if (sscanf(ex.cas + 1, "%d %lld %d %d %d %d %d", &fam, &in, &next, &n, idx, idx + 1, idx + 2) != 7 ||
+			    (fam != FAM_D && fam != FAM_DT) || n < 1 || n > 3 || idx[0] < 0 || idx[0] >= NMDEF ||
+			    idx[1] < 0 || idx[1] >= NMDEF || idx[2] < 0 || idx[2] >= NMDEF) {
+				return ex_replay_result(1, "bad case");
+			}
+			fmt_inst(txt, sizeof(txt), fam, in);
+			return ex_replay_result(do_multi(fam, in, dt_strpdt(txt, NULL, NULL), idx, n, next, 1), "%s", ex.cas);
 		}
 		if (ex.cas[0] == 'B') {
 			int k, rd;
@@ -893,7 +1144,7 @@ main(int argc, char *argv[])
 			printf("  binary '%s' level S '%s'\n", line, got);
 			return ex_replay_result(strcmp(line, got) != 0, "binding %s %s on %s", bind_specs[k][0], bind_specs[k][1], txt);
 		}
-		if (sscanf(ex.cas, "%d %lld %d %d", &fam, &in, &si, &next) != 4 || fam < 0 || fam > 3 || si < 0 || si >= nspec) {
+		if (sscanf(ex.cas, "%d %lld %d %d", &fam, &in, &si, &next) != 4 || fam < 0 || fam > 4 || si < 0 || si >= nspec) {
 			return ex_replay_result(1, "bad case string '%s'", ex.cas);
 		}
 		{
@@ -933,6 +1184,10 @@ main(int argc, char *argv[])
 		}
 		for (int rd = rc_yearstart[y]; rd < rc_yearstart[y + 1]; rd++) {
 			do_input(FAM_D, rd, date_lo, date_hi);
+			do_input(FAM_D, rd, cobd_lo, cobd_hi);
+			if (rc_get(rd)->isbd) {
+				do_input(FAM_B, rd, bd_lo, bd_hi);
+			}
 		}
 		++*c_traces;
 	}
@@ -953,7 +1208,8 @@ main(int argc, char *argv[])
 		}
 		for (int k = 0; k < 7; k++) {
 			int64_t in = (int64_t)rc_rd(bdays[b][0], bdays[b][1], bdays[b][2]) * 86400 + T7[k];
-			do_input(FAM_DT, in, 0, nspec);
+			do_input(FAM_DT, in, 0, bd_lo);
+			do_input(FAM_DT, in, cobd_lo, cobd_hi);
 		}
 		++*c_traces;
 	}
@@ -967,6 +1223,23 @@ main(int argc, char *argv[])
 			do_input(FAM_SX, in, time_lo, time_hi);
 		}
 		++*c_traces;
+	}
+	/* several RNDSPECs in one call: pairs (quick) / pairs and triples (thorough) */
+	for (int b = 0; b < NBDAYS && !ex_expired(); b++) {
+		for (int k = 0; k < 8 && !ex_expired(); k++, slice++) {
+			int rd = rc_rd(bdays[b][0], bdays[b][1], bdays[b][2]);
+			if (!ex_mine(slice)) {
+				continue;
+			}
+			for (int len = 2; len <= (ex.thorough ? 3 : 2); len++) {
+				if (k < 7) {
+					do_multi_input(FAM_DT, (int64_t)rd * 86400 + TM7[k], len);
+				} else {
+					do_multi_input(FAM_D, rd, len);
+				}
+			}
+			++*c_traces;
+		}
 	}
 	/* main() */
 	for (int u = 0; u < 5 && !ex_expired(); u++, slice++) {
